@@ -14,7 +14,12 @@ extern "C" int sim_tid(void) { return sched_self(); }
 extern "C" {
 __attribute__((used)) const char *__asan_default_options() { return "exitcode=77:detect_leaks=0:abort_on_error=0:allocator_may_return_null=1:detect_stack_use_after_return=0"; }
 __attribute__((used)) const char *__ubsan_default_options() { return "halt_on_error=1:exitcode=77:print_stacktrace=1"; }
-__attribute__((used)) const char *__tsan_default_options() { return "exitcode=66:halt_on_error=1:report_signal_unsafe=0:second_deadlock_stack=1"; }
+// Only c-ares is TSan-instrumented. The harness and the virtual kernel are not, but their calls into libc/libstdc++ go
+// through TSan's interceptors, which would report "races" between harness threads that in fact run one at a time under the
+// (deliberately invisible) baton: ignore accesses made inside interceptors and the allocator events of operator new/delete
+// (c-ares allocates with malloc/free through ares_library_init_mem, never with new/delete).
+__attribute__((used)) const char *__tsan_default_options() { return "exitcode=66:halt_on_error=1:report_signal_unsafe=0:second_deadlock_stack=1:ignore_interceptors_accesses=1:detect_deadlocks=1"; }
+__attribute__((used)) const char *__tsan_default_suppressions() { return "race:operator delete\nrace:operator new\nrace:std::\n"; }
 void __sanitizer_set_death_callback(void (*)(void)) __attribute__((weak));
 }
 
